@@ -34,5 +34,12 @@ def Sel.setOrderBy : Sel → List Expr → Sel
 def Sel.setLimit : Sel → Option Expr → Sel
   | .mk ws d c f j p w g h o _, l => .mk ws d c f j p w g h o l
 
+/-- `s.Select(append(s.GetSelect(), cols...)...)` -/
+def Sel.addCols : Sel → List Expr → Sel
+  | .mk ws d c f j p w g h o l, cs => .mk ws d (c ++ cs) f j p w g h o l
+
+/-- `Select.AndHaving` -/
+def Sel.andHaving : Sel → List Expr → Sel
+  | .mk ws d c f j p w g h o l, cl => .mk ws d c f j p w g (some (andCond h cl)) o l
 
 end Qryn.Sql
